@@ -525,3 +525,89 @@ def field_mutators(F, field, allowed_rx, bodies=None):
                 if not rx.search(nm):
                     res.append((b.path, nm, b.loc(bi)))
     return res
+
+
+def prune_bool_param(body, param_local, value):
+    """edges to remove assuming the bool parameter `_param_local` == value (switches whose
+    discriminant is a direct copy of it, possibly through one Not)."""
+    removed = set()
+    for bi in body.normal_blocks():
+        t = body.term(bi)
+        if t['k'] != 'switch' or t.get('dty') != 'bool':
+            continue
+        l = op_local(t['a'])
+        neg = False
+        for _ in range(3):
+            if l == param_local:
+                break
+            ds = [d for d in body.defs().get(l, []) if d[2] == 'assign']
+            if len(ds) != 1:
+                l = None
+                break
+            r = ds[0][3]['r']
+            if r['k'] == 'un' and r['op'] == 'Not':
+                neg = not neg
+                l = op_local(r['a'][0])
+            elif r['k'] == 'use' and op_place(r['a'][0]) and len(op_place(r['a'][0])) == 1:
+                l = op_local(r['a'][0])
+            else:
+                l = None
+                break
+        if l != param_local:
+            continue
+        v = bool(value) ^ neg
+        if t['vals'] == [0] and len(t['ts']) == 2:
+            drop = t['ts'][0] if v else t['ts'][1]
+            keep = t['ts'][1] if v else t['ts'][0]
+            if drop != keep:
+                removed.add((bi, drop))
+    return removed
+
+
+def forward_taint(body, seeds):
+    """locals that may hold (a reference into / a copy of the pointer of) the seed locals:
+    closure over copies, moves, reborrows, casts and call results of calls taking a tainted arg."""
+    t = set(seeds)
+    changed = True
+    while changed:
+        changed = False
+        for bi, b in enumerate(body.blocks):
+            for s in b['s']:
+                if s['k'] != 'assign':
+                    continue
+                r = s['r']
+                src = []
+                if r['k'] in ('use', 'cast', 'agg', 'bin', 'un', 'repeat'):
+                    src = [op_place(a)[0] for a in r['a'] if op_place(a)]
+                elif r['k'] in ('ref', 'rawptr', 'copyderef', 'discr'):
+                    src = [r['p'][0]]
+                if any(x in t for x in src) and s['p'][0] not in t:
+                    t.add(s['p'][0]); changed = True
+            tm = b['t']
+            if tm['k'] == 'call':
+                if any(op_place(a) and op_place(a)[0] in t for a in tm['a']) and tm['d'][0] not in t:
+                    t.add(tm['d'][0]); changed = True
+    return t
+
+
+def prune_bool_upvar(body, upvar_suffix, value):
+    """like prune_bool_field for a closure body: the switch discriminant derives (copies / derefs
+    only) from the captured place whose name ends with upvar_suffix (e.g. 'self.validate')."""
+    ups = body.d.get('upvars') or []
+    idx = [i for i, u in enumerate(ups) if u.endswith(upvar_suffix)]
+    removed = set()
+    if not idx:
+        return removed
+    want = '.^%d' % idx[0]
+    for bi in body.normal_blocks():
+        t = body.term(bi)
+        if t['k'] != 'switch' or t.get('dty') != 'bool' or t['vals'] != [0] or len(t['ts']) != 2:
+            continue
+        p = op_place(t['a'])
+        if p is None:
+            continue
+        sl = backward_slice(body, [p], through_calls=False)
+        if want in sl.fields and not sl.binops:
+            drop = t['ts'][0] if value else t['ts'][1]
+            removed.add((bi, drop))
+    return removed
